@@ -25,6 +25,10 @@ def run(ctx):
     ctx.add("distinct_nontrivial", r2["nontrivial"])
     if not q:
         vlib.vacuity_check(ctx, "Csv.tla", "MC_Csv_quick.cfg")
+    # across processes: the rows of a concatenated log = the rows of its blocks (a date one year later on the same day of the year, long days)
+    rb = ctx.drv("compose-binary", outfile=os.path.join(ctx.scratch, "compose_bin_mm.ndjson"), env_extra={"VERIF_BIN": ctx.build_binary()},
+                 shape_filter=lambda sh: sh in ("per-day-report-not-concatenation", "report-fails"))
+    ctx.add("evaluations", rb["runs"])
     # the two book exports: every enumerated book of Resolver.tla through `csv database` / `csv database-resolved`
     for cfg in (["MC_Resolver_records.cfg", "MC_Resolver_c01_quick_a.cfg", "MC_Resolver_c01_quick_b.cfg"] if q else ["MC_Resolver_records.cfg", "MC_Resolver_c01_quick_a.cfg", "MC_Resolver_c01_quick_b.cfg", "MC_Resolver_c01_thorough_a.cfg"]):
         btr = os.path.join(ctx.scratch, "csv_books_trace_%s.ndjson" % cfg[12:-4])
